@@ -42,8 +42,8 @@ Proof.
   assert (Hc : forall m st tr r, conseq (eval f lc) lc m st tr = Some r -> conseq (eval (f + k) lc) lc m st tr = Some r).
   { intros m0 st0 tr0 r0. apply conseq_mono. intros c st' tr' r' Hc. now apply IH. }
   destruct h; auto.
-  destruct (eval f lc h1 st tr) as [[[o st1] tr1]|] eqn:E; [|discriminate].
-  rewrite (IH _ _ _ _ E k). destruct o; auto.
+  all: destruct (eval f lc h1 st tr) as [[[o st1] tr1]|] eqn:E; [|discriminate].
+  all: rewrite (IH _ _ _ _ E k); destruct o; auto.
 Qed.
 
 Lemma eval_mono_le f f' h st tr r : eval f lc h st tr = Some r -> (f <= f')%nat -> eval f' lc h st tr = Some r.
@@ -154,12 +154,17 @@ Proof.
     pose proof (run_first ga (init h1) h2 st tr o st1 tr1 Ha) as Hf. destruct o.
     + destruct (IH _ _ _ _ H) as [gb Hb]. exists (ga + gb)%nat. now apply Hf.
     + injection H as <-. exists ga. exact Hf.
+  - destruct (eval f lc h1 st tr) as [[[o st1] tr1]|] eqn:Ea; [|discriminate].
+    destruct (IH _ _ _ _ Ea) as [ga Ha]. cbn [init].
+    pose proof (run_first ga (init h1) h2 st tr o st1 tr1 Ha) as Hf. destruct o.
+    + destruct (IH _ _ _ _ H) as [gb Hb]. exists (ga + gb)%nat. now apply Hf.
+    + injection H as <-. exists ga. exact Hf.
 Qed.
 
 (* ---- and produces no other ---- *)
 Theorem run_eval g : forall h st tr r, run g lc (init h) st tr = Some r -> exists f, eval f lc h st tr = Some r.
 Proof.
-  induction g as [g IHg] using lt_wf_ind. intros h. induction h as [| e | | l v | l | src dst d | l k v | l k | l | l k | a IHa b IHb];
+  induction g as [g IHg] using lt_wf_ind. intros h. induction h as [| e | | l v | l | src dst d | l k v | l k | l | l k | a IHa b IHb | a IHa b IHb];
     intros st tr r H.
   1-10: (destruct g as [|g]; [discriminate|]; cbn [run init step conseq] in H).
   - exists 1%nat. exact H.
@@ -206,12 +211,24 @@ Proof.
       exists (S (fa + fb)). cbn [eval]. rewrite (eval_mono _ _ _ _ _ Hfa fb).
       apply eval_mono_le with fb; [exact Hfb|lia].
     + destruct (IHa _ _ _ Ha) as [fa Hfa]. exists (S fa). cbn [eval]. now rewrite Hfa.
+  - (* HThen *)
+    cbn [init] in H. destruct (run_first_inv _ _ _ _ _ _ H) as [(st1 & tr1 & Ha & Hb)|(st1 & tr1 & -> & Ha)].
+    + destruct (IHa _ _ _ Ha) as [fa Hfa]. destruct (IHb _ _ _ Hb) as [fb Hfb].
+      exists (S (fa + fb)). cbn [eval]. rewrite (eval_mono _ _ _ _ _ Hfa fb).
+      apply eval_mono_le with fb; [exact Hfb|lia].
+    + destruct (IHa _ _ _ Ha) as [fa Hfa]. exists (S fa). cbn [eval]. now rewrite Hfa.
 Qed.
 
 (* both directions *)
 Theorem machine_is_depth_first h st tr r :
   (exists g, run g lc (init h) st tr = Some r) <-> (exists f, eval f lc h st tr = Some r).
 Proof. split; intros [x Hx]; [eapply run_eval|eapply eval_run]; eauto. Qed.
+
+(* and_then over a handler that produces nothing is sequencing: the modifications of its first half are
+   acted on exactly as those of followed_by *)
+Lemma and_then_is_sequencing g a b st tr :
+  run g lc (init (HThen a b)) st tr = run g lc (init (HSeq a b)) st tr.
+Proof. reflexivity. Qed.
 
 (* results do not depend on the fuel *)
 Lemma run_deterministic g1 g2 s st tr r1 r2 :
@@ -275,6 +292,10 @@ Proof.
   - injection H as _ _ <-. exists []. now rewrite app_nil_r.
   - injection H as _ _ <-. eauto.
   - injection H as _ _ <-. eauto.
+  - destruct (eval f lc h1 st tr) as [[[o1 st1] tr1]|] eqn:Ea; [|discriminate].
+    destruct (IH _ _ _ _ _ _ Ea) as [s1 ->]. destruct o1.
+    + destruct (IH _ _ _ _ _ _ H) as [s2 ->]. exists (s1 ++ s2). now rewrite app_assoc.
+    + injection H as _ _ <-. eauto.
   - destruct (eval f lc h1 st tr) as [[[o1 st1] tr1]|] eqn:Ea; [|discriminate].
     destruct (IH _ _ _ _ _ _ Ea) as [s1 ->]. destruct o1.
     + destruct (IH _ _ _ _ _ _ H) as [s2 ->]. exists (s1 ++ s2). now rewrite app_assoc.
